@@ -110,6 +110,7 @@ func run(sc scenario) (body func(), check func(r *vrt.Result) []finding) {
 	var baseline, finalLive int
 	var retained []*http.Request
 	var staleCtx int
+	var dials int
 	type clientObs struct {
 		conn      string
 		statuses  []int
@@ -137,6 +138,7 @@ func run(sc scenario) (body func(), check func(r *vrt.Result) []finding) {
 	}
 	body = func() {
 		calls, rtCalls, obs, retained = nil, nil, nil, nil
+		dials = 0
 		hijackRetTick = map[string]int{}
 		srvConn = map[string]*simnet.Conn{}
 		staleCtx = 0
@@ -230,6 +232,7 @@ func run(sc scenario) (body func(), check func(r *vrt.Result) []finding) {
 		}
 		// blind tunnels dial a target that echoes one line
 		w.Proxy.SetDial(func(network, addr string) (net.Conn, error) {
+			dials++
 			if has(behOf("0", "0"), "dialerr") {
 				return nil, errors.New("simulated dial failure")
 			}
@@ -298,6 +301,13 @@ func run(sc scenario) (body func(), check func(r *vrt.Result) []finding) {
 				start = 1
 				switch mode {
 				case "blind":
+					if has(b0, "skip") {
+						// the modifier skipped the round trip: no tunnel exists behind the 200; the proxy closes
+						rest, err := io.ReadAll(br)
+						o.extra += string(rest)
+						o.eofAfter = err == nil || pworld.IsReset(err)
+						return
+					}
 					fmt.Fprintf(cl.C, "ping\n")
 					line, _ := br.ReadString('\n')
 					if line != "echo:ping\n" {
@@ -444,6 +454,9 @@ func run(sc scenario) (body func(), check func(r *vrt.Result) []finding) {
 			case has(beh, "skip") || has(beh, "hijack-req"):
 				if len(rts[ky]) != 0 {
 					add("upstream_contact_unexpected:"+btag, "exchange %v: %d round trips although the modifier asked to %s", ky, len(rts[ky]), beh)
+				}
+				if isConnect && sc.Mode == "blind" && dials != 0 {
+					add("upstream_contact_unexpected:"+btag, "exchange %v: the CONNECT target was dialled %d times although the modifier asked to %s", ky, dials, beh)
 				}
 			case isConnect:
 			default:
@@ -618,7 +631,7 @@ func scenarios(tier string) []scenario {
 			out = append(out, scenario{Mode: "plain", Beh: beh, Second: true})
 		}
 	})
-	for _, b0 := range []string{"pass", "reqerr", "reserr", "dialerr", "hijack-req", "hijack-res", "dialerr+hijack-res", "dialerr+reserr", "reqerr+hijack-res"} {
+	for _, b0 := range []string{"pass", "reqerr", "reserr", "dialerr", "hijack-req", "hijack-res", "dialerr+hijack-res", "dialerr+reserr", "reqerr+hijack-res", "skip", "skip+reserr", "skip+hijack-res", "preapi+skip"} {
 		out = append(out, scenario{Mode: "blind", Beh: []string{b0}}, scenario{Mode: "blind", Beh: []string{b0}, Second: true})
 	}
 	for _, mode := range []string{"mitm-plain", "mitm-tls"} {
